@@ -60,7 +60,7 @@ def alphabet(np_, level):
 
 BOUNDS = {   # (depth, alphabet level, level already covered at this depth by an earlier bound or None)
     "quick": [(1, "full", None), (2, "red", None)],
-    "thorough": [(1, "full", None), (2, "red", None), (2, "full", "red"), (3, "tiny", None), (3, "red", "tiny")],
+    "thorough": [(1, "full", None), (2, "red", None), (3, "tiny", None), (2, "full", "red"), (3, "red", "tiny")],
 }
 
 
@@ -198,6 +198,47 @@ def _kind_of(prog, what):
     return "+".join(sorted(set(ks)))
 
 
+def ambiguous_wait(prog):
+    """True when some rank waits for a request that is not the oldest of its outstanding requests with the same
+    (src, dst, tag) - all p2p steps use one tag. The TI trace names a request only by (src, dst, tag) ('wait 0 1 1') and the
+    replayer serves such waits in FIFO order, so these are the programs in which it may wait for another request than the
+    application did. (Classification of a divergence only; the dates are still compared.)"""
+    out = {}        # rank -> list of (key, serial) outstanding, in issue order
+    deferred = {}   # rank -> list of (key, serial) to wait at the end, in issue order
+    serial = 0
+    amb = False
+
+    def wait(rank, key, ser):
+        nonlocal amb
+        lst = out.setdefault(rank, [])
+        same = [x for x in lst if x[0] == key]
+        if same and same[0][1] != ser:
+            amb = True
+        lst.remove((key, ser))
+
+    for st in prog.split():
+        if st[0] != "p":
+            continue
+        f = st[1:].split(",")
+        s_, d_, sm, rm = int(f[0]), int(f[1]), f[3], f[4]
+        key = (s_, d_)
+        for rank, mode, now, later in ((s_, sm, "I", "D"), (d_, rm, "J", "E")):
+            if mode in (now, later):
+                serial += 1
+                out.setdefault(rank, []).append((key, serial))
+                if mode == now:
+                    wait(rank, key, serial)
+                else:
+                    deferred.setdefault(rank, []).append((key, serial))
+    for rank, lst in deferred.items():
+        for key, ser in lst:
+            wait(rank, key, ser)
+    return amb
+
+
+AMBIG = "wait-on-ambiguous-request"
+
+
 def setup(tmp):
     open(os.path.join(tmp, "plat.xml"), "w").write(PLATFORM)
     open(os.path.join(tmp, "hosts.txt"), "w").write("".join("n%d\n" % i for i in range(8)))
@@ -211,14 +252,14 @@ def run(ctx):
     groups, done, skipped, per_bound, samples, explained = {}, [], [], [], [], {}
     tot = dict(programs=0, dates=0, nontrivial=0)
     exhaustive = True
-    rate = 0.0006      # wall seconds per program and rank count unit, refined as the run goes
+    rates = {}         # np -> wall seconds per program, refined as the run goes
     try:
-        for (depth, level, excl) in BOUNDS[ctx.tier]:
+        for bound_index, (depth, level, excl) in enumerate(BOUNDS[ctx.tier]):
             for np_ in nps:
                 progs = programs(np_, depth, level, excl)
                 n = len(progs)
                 bid = "steps=%d alphabet=%s%s np=%d" % (depth, level, "-minus-" + excl if excl else "", np_)
-                predicted = 3 + rate * n
+                predicted = 3 + rates.get(np_, 0.0008 * max(1, np_ / 3)) * n
                 if ctx.deadline.over() or predicted > ctx.deadline.left():
                     exhaustive = False
                     skipped.append(bid)
@@ -248,7 +289,7 @@ def run(ctx):
                         # a run that dies is located by bisection below: treat the whole chunk as one failing case
                         g = groups.setdefault("run-failed np=%d" % np_, {"count": 0, "first": None})
                         g["count"] += 1
-                        order = (depth, level, np_, r["lo"])
+                        order = (depth, bound_index, np_, r["lo"])
                         if g["first"] is None or order < g["first"][0]:
                             g["first"] = (order, {"depth": depth, "level": level, "excl": excl, "np": np_, "lo": r["lo"], "hi": r["hi"], "idx": r["lo"],
                                                   "prog": progs[r["lo"]], "what": "run-failed", "rank": -1, "err": r["err"]})
@@ -258,21 +299,22 @@ def run(ctx):
                         firsts.setdefault(idx, (idx, rk, what, o, p))
                     nbad += len(firsts)
                     for idx, (i_, rk, what, o, p) in sorted(firsts.items()):
-                        kind = _kind_of(progs[idx], what)
+                        kind = AMBIG if ambiguous_wait(progs[idx]) else _kind_of(progs[idx], what)
                         g = groups.setdefault(kind, {"count": 0, "first": None})
                         g["count"] += 1
-                        order = (depth, level, np_, idx)
+                        order = (depth, bound_index, np_, idx)
                         if g["first"] is None or order < g["first"][0]:
                             g["first"] = (order, {"depth": depth, "level": level, "excl": excl, "np": np_, "lo": r["lo"], "hi": r["hi"], "idx": idx,
                                                   "prog": progs[idx], "what": what, "rank": rk, "online": o, "replay": p})
                 # non-trivial: programs whose ranks do not all finish at the same date (timing really depends on the calls)
-                b = dict(bound=bid, programs=n, diverging_programs=nbad, wall_s=round(time.time() - t0, 1))
+                b = dict(bound=bid, programs=n, diverging_programs=nbad, wall_s=round(time.time() - t0, 1),
+                         programs_with_ambiguous_waits=sum(1 for p_ in progs if ambiguous_wait(p_)))
                 per_bound.append(b)
                 tot["programs"] += n
                 tot["dates"] += 2 * n * np_
                 done.append(bid)
-                if n >= 2000:
-                    rate = (time.time() - t0) / n
+                if n >= 10000:
+                    rates[np_] = min(rates.get(np_, 1.0), (time.time() - t0) / n)
                 if len(samples) < 10:
                     samples += ["np=%d: %s" % (np_, progs[i]) for i in (0, n // 2, n - 1)][:3]
                 common.log("C37: bound %s: %d programs, %d diverging [%.1fs]" % (bid, n, nbad, time.time() - t0))
@@ -281,7 +323,7 @@ def run(ctx):
         kept = []
         for kind in sorted(groups, key=lambda k: (len(k.split("+")), k)):
             ks = set(kind.split("+"))
-            if any(set(k2.split("+")) < ks for k2 in kept if not k2.startswith("run-failed")):
+            if kind != AMBIG and any(set(k2.split("+")) < ks for k2 in kept if not k2.startswith("run-failed") and k2 != AMBIG):
                 explained[kind] = groups[kind]["count"]
                 continue
             kept.append(kind)
@@ -290,7 +332,7 @@ def run(ctx):
             g = groups[kind]
             order, case = g["first"]
             np_ = case["np"]
-            key = "C37 %s np=%d prog=%s" % (case["what"], np_, case["prog"].replace(" ", ";")) + (" rank=%d" % case["rank"] if case["rank"] >= 0 else "")
+            key = "C37 %s np=%d prog=%s" % (AMBIG if kind == AMBIG else case["what"], np_, case["prog"].replace(" ", ";")) + (" rank=%d" % case["rank"] if case["rank"] >= 0 else "")
             for attempt in (1, 2):
                 ok, seen = _rerun(tmp, binary, case)
                 if not ok:
